@@ -317,6 +317,8 @@ def concrete(fn, params, args):
     from curtsies.formatstring import fmtstr, FmtStr
     if fn == "longsample":
         return _longsample(params["k"])
+    if fn == "stringsweep":
+        return _stringsweep()
     P.clear()
     P.update(params)
     if fn == "total":
@@ -370,9 +372,84 @@ LONG_SAMPLES = [
 ]
 
 
+PARAM_VALUES = [0, 1, 2, 5, 7, 22, 30, 37, 38, 39, 40, 47, 48, 49, 90, 100, 255]
+FRAGMENTS = ["\x1b[", "\x1b[3", "\x1b", "\x9b", "\x1b[1;", "\x1b[3;4"]
+UNSUPPORTED = ["\x1b[90m", "\x1b[53m", "\x1b[38;5;1m", "\x1b[2A", "\x1b[21m", "\x9b90m"]
+TAILS = ["31mX", "1Ab", "mX", "0mY", "X", ";1mZ", ""]
+
+
+def _string_cases():
+    """finite families replayed on every run: (a) one SGR sequence with every parameter list of length <= 3 over the
+    boundary values of the parameter space (truncated extended-colour selectors included), between two letters;
+    (b) a truncated introducer, then a complete unsupported sequence, then text that would complete a sequence with the
+    truncated introducer if the middle were spliced out"""
+    import itertools
+    out = []
+    for n in (1, 2, 3):
+        for ps in itertools.product(PARAM_VALUES, repeat=n):
+            if n == 3 and not (ps[0] in (38, 48, 1, 0) or ps[1] in (38, 48)):
+                continue
+            out.append("a\x1b[" + ";".join(map(str, ps)) + "mb")
+    for extra in ("\x1b[38;2;10;20m", "\x1b[48;2;1;2;3m", "\x1b[38;5m", "\x1b[1;38m", "\x1b[38;2m", "\x1b[48;5;7;1m"):
+        out.append("a" + extra + "b")
+    for pre in ("", "a"):
+        for fr in FRAGMENTS:
+            for un in UNSUPPORTED:
+                for tl in TAILS:
+                    out.append(pre + fr + un + tl)
+    return out
+
+
 def extra_concrete_cases():
-    """long real-world style lines (many sequences, supported and unsupported codes): finite data replayed on every run"""
-    return [("longsample", {"k": k}, []) for k in range(len(LONG_SAMPLES))]
+    """long real-world style lines (many sequences, supported and unsupported codes) and two finite string families:
+    finite data replayed on every run"""
+    return [("longsample", {"k": k}, []) for k in range(len(LONG_SAMPLES))] + [("stringsweep", {}, [])]
+
+
+def _judge_string(s):
+    from curtsies.formatstring import fmtstr, FmtStr
+    call = "fmtstr(%r)" % s
+    try:
+        r = fmtstr(s)
+        r2 = FmtStr.from_str(s)
+    except BaseException as ex:      # noqa - StopIteration / RecursionError count too
+        if isinstance(ex, (KeyboardInterrupt, SystemExit)):
+            raise
+        return {"ok": False, "observed": "raised %r" % (ex,), "expected": "no exception", "call": call}
+    chars = list(s)
+    word = _word_of(chars)
+    keep, exact = scan(word)
+    res = r.s
+    if r2.s != res:
+        return {"ok": False, "observed": "fmtstr -> %r, from_str -> %r" % (res, r2.s), "expected": "same text", "call": call}
+    if exact is not None:
+        want = "".join(chars[q] for q in exact)
+        return {"ok": res == want, "observed": repr(res), "expected": repr(want), "call": call}
+    return {"ok": _subseq_ok(list(res), chars, keep), "observed": repr(res),
+            "expected": "a subsequence of the input keeping positions %r" % [i for i, k in enumerate(keep) if k], "call": call}
+
+
+def _word_of(chars):
+    """class word of a concrete string (inverse of _mk for the classes scan() distinguishes)"""
+    out = []
+    for c in chars:
+        k = None
+        for name, (lo, cnt) in CLASSES.items():
+            if lo <= ord(c) < lo + cnt:
+                k = name
+                break
+        out.append(k or "X")
+    return "".join(out)
+
+
+def _stringsweep():
+    n = 0
+    for s in _string_cases():
+        n += 1
+        r = _judge_string(s)
+        if not r["ok"]:
+            return r
+    return {"ok": True, "observed": "%d strings: no exception, text kept" % n, "call": "stringsweep"}
 
 
 def _longsample(k):
